@@ -66,7 +66,14 @@ def r8_end_to_end(run, tree):
     qs.check_numpy_stack(run, tree)
 
 
-RULES = [r7_conversion, r1_protocols, r2_catalogue, r3_no_inherit_without_reconcile, r4_dtype_gate, r5_out, r6_helpers, r8_end_to_end]
+def r_conversion_history(run, tree):
+    run.rule("C10.R9", "a conversion is computed from the operand as it is NOW: converting, changing the buffer in place, converting again gives the new values (no memo of an earlier conversion; shared with C02.R7/C08.R6)",
+             "D7 history fold of Array.to with symbolic buffers", "", floor=1)
+    from . import quantity_stack as qs
+    qs.check_to_stack(run, tree, only=("history",))
+
+
+RULES = [r7_conversion, r1_protocols, r2_catalogue, r3_no_inherit_without_reconcile, r4_dtype_gate, r5_out, r6_helpers, r8_end_to_end, r_conversion_history]
 
 
 def t_numpy_space(run, tree):
